@@ -34,6 +34,8 @@ type c02Scenario struct {
 	World *gen.SchedWorld `json:"world"`
 	// Deploy: pending pod name -> deployment index (replicas of one template)
 	Deploy map[string]int `json:"deploy"`
+	// Namespaces: extra namespaces (name -> labels) that pods and (anti-)affinity terms may refer to
+	Namespaces map[string]map[string]string `json:"namespaces,omitempty"`
 }
 
 var c02Keys = []string{corev1.LabelHostname, corev1.LabelTopologyZone, corev1.LabelTopologyZone, sim.LabelRack}
@@ -190,6 +192,70 @@ func drawC02(t *rapid.T) *c02Scenario {
 			idx++
 		}
 	}
+	// a second namespace: some deployments and running pods live there, and (anti-)affinity terms look at listed
+	// namespaces, at namespaces picked by a namespaceSelector, or (by default) at the pod's own namespace only
+	if dpct(t, 25, "twoNamespaces") {
+		s.Namespaces = map[string]map[string]string{"other": {"team": "x", "kubernetes.io/metadata.name": "other"}}
+		scope := func(term *corev1.PodAffinityTerm, l string) {
+			switch rapid.IntRange(0, 7).Draw(t, l) {
+			case 4:
+				// both: the union of the listed and the selected namespaces
+				term.Namespaces = []string{"default"}
+				term.NamespaceSelector = &metav1.LabelSelector{MatchLabels: map[string]string{"team": "x"}}
+			case 0:
+				term.Namespaces = []string{"other"}
+			case 1:
+				term.Namespaces = []string{"default", "other"}
+			case 2:
+				term.NamespaceSelector = &metav1.LabelSelector{MatchLabels: map[string]string{"team": "x"}}
+			case 3:
+				term.NamespaceSelector = &metav1.LabelSelector{}
+			}
+		}
+		scopeAll := func(p *corev1.Pod, l string) {
+			a := p.Spec.Affinity
+			if a == nil {
+				return
+			}
+			if a.PodAffinity != nil {
+				for i := range a.PodAffinity.RequiredDuringSchedulingIgnoredDuringExecution {
+					scope(&a.PodAffinity.RequiredDuringSchedulingIgnoredDuringExecution[i], fmt.Sprintf("%s_aff%d", l, i))
+				}
+				for i := range a.PodAffinity.PreferredDuringSchedulingIgnoredDuringExecution {
+					scope(&a.PodAffinity.PreferredDuringSchedulingIgnoredDuringExecution[i].PodAffinityTerm, fmt.Sprintf("%s_affSoft%d", l, i))
+				}
+			}
+			if a.PodAntiAffinity != nil {
+				for i := range a.PodAntiAffinity.RequiredDuringSchedulingIgnoredDuringExecution {
+					scope(&a.PodAntiAffinity.RequiredDuringSchedulingIgnoredDuringExecution[i], fmt.Sprintf("%s_anti%d", l, i))
+				}
+				for i := range a.PodAntiAffinity.PreferredDuringSchedulingIgnoredDuringExecution {
+					scope(&a.PodAntiAffinity.PreferredDuringSchedulingIgnoredDuringExecution[i].PodAffinityTerm, fmt.Sprintf("%s_antiSoft%d", l, i))
+				}
+			}
+		}
+		// one decision per deployment, applied to the first replica and copied to the others
+		first := map[int]*corev1.Pod{}
+		for _, p := range w.Pending {
+			d := s.Deploy[p.Name]
+			if f, ok := first[d]; ok {
+				p.Namespace = f.Namespace
+				p.Spec.Affinity = f.Spec.Affinity.DeepCopy()
+				continue
+			}
+			if dpct(t, 40, fmt.Sprintf("dep%d_otherNamespace", d)) {
+				p.Namespace = "other"
+			}
+			scopeAll(p, fmt.Sprintf("dep%d_scope", d))
+			first[d] = p
+		}
+		for i, p := range w.Bound {
+			if dpct(t, 40, fmt.Sprintf("bound%d_otherNamespace", i)) {
+				p.Namespace = "other"
+			}
+			scopeAll(p, fmt.Sprintf("bound%d_scope", i))
+		}
+	}
 	// profile: a workload spread over zones with nodeTaintsPolicy Honor in a cluster where some nodes carry a taint it
 	// does not tolerate; whatever runs on those nodes (often pods the spread selects, several per node) must not count
 	excludedProfile := dpct(t, 30, "excludedNodesProfile")
@@ -330,6 +396,28 @@ func (w *c02Where) domains(key string) map[string]bool {
 	return out
 }
 
+// c02TermMatches: the (anti-)affinity term of owner selects q: q lives in one of the term's namespaces (the listed ones
+// plus those its namespaceSelector selects; the owner's own namespace when neither is given) and carries the labels.
+func (s *c02Scenario) c02TermMatches(term corev1.PodAffinityTerm, owner, q *corev1.Pod) bool {
+	if len(term.Namespaces) == 0 && term.NamespaceSelector == nil {
+		return c02Matches(term.LabelSelector, owner.Namespace, q)
+	}
+	in := false
+	for _, n := range term.Namespaces {
+		in = in || n == q.Namespace
+	}
+	if !in && term.NamespaceSelector != nil {
+		if sel, err := metav1.LabelSelectorAsSelector(term.NamespaceSelector); err == nil {
+			nsLabels, known := s.Namespaces[q.Namespace]
+			if q.Namespace == "default" {
+				nsLabels, known = map[string]string{"kubernetes.io/metadata.name": "default"}, true
+			}
+			in = known && sel.Matches(labels.Set(nsLabels))
+		}
+	}
+	return in && c02Matches(term.LabelSelector, q.Namespace, q)
+}
+
 func c02Matches(sel *metav1.LabelSelector, ns string, q *corev1.Pod) bool {
 	if sel == nil || q.Namespace != ns {
 		return false
@@ -458,6 +546,11 @@ func ownConstraintsOn(p *corev1.Pod, key string, soft bool) int {
 func execC02(s *c02Scenario, c *ev.Ctx) {
 	b := build(s.World, c)
 	w := b.W
+	w.Apply(&corev1.Namespace{ObjectMeta: metav1.ObjectMeta{Name: "default", Labels: map[string]string{"kubernetes.io/metadata.name": "default"}}})
+	for _, n := range sortedKeys(s.Namespaces) {
+		w.Apply(&corev1.Namespace{ObjectMeta: metav1.ObjectMeta{Name: n, Labels: s.Namespaces[n]}})
+	}
+	c.ClassIf(len(s.Namespaces) > 0, "two_namespaces")
 	res, err := b.Provisioner.Schedule(w.Ctx)
 	if err != nil {
 		c.Class("schedule_error")
@@ -553,7 +646,7 @@ func execC02(s *c02Scenario, c *ev.Ctx) {
 				continue
 			}
 			for _, t := range q.Spec.Affinity.PodAntiAffinity.RequiredDuringSchedulingIgnoredDuringExecution {
-				if t.TopologyKey == key && c02Matches(t.LabelSelector, q.Namespace, p.pod) {
+				if t.TopologyKey == key && s.c02TermMatches(t, q, p.pod) {
 					n++
 				}
 			}
@@ -582,6 +675,16 @@ func execC02(s *c02Scenario, c *ev.Ctx) {
 	constraintID := func(kind, key string, sel *metav1.LabelSelector) string {
 		return kind + "|" + key + "|" + metav1.FormatLabelSelector(sel)
 	}
+	// termID: (anti-)affinity terms are the same constraint only if they also look at the same namespaces
+	termID := func(kind string, term corev1.PodAffinityTerm, owner *corev1.Pod) string {
+		ns := "ns=" + owner.Namespace
+		if len(term.Namespaces) > 0 || term.NamespaceSelector != nil {
+			l := append([]string{}, term.Namespaces...)
+			sort.Strings(l)
+			ns = "ns=" + strings.Join(l, ",") + "/" + metav1.FormatLabelSelector(term.NamespaceSelector)
+		}
+		return constraintID(kind, term.TopologyKey, term.LabelSelector) + "|" + ns
+	}
 	describe := func(p *c02Pod, key string) string {
 		d := p.where.domains(key)
 		ks := make([]string, 0, len(d))
@@ -599,15 +702,15 @@ func execC02(s *c02Scenario, c *ev.Ctx) {
 		}
 		for _, term := range a.pod.Spec.Affinity.PodAntiAffinity.RequiredDuringSchedulingIgnoredDuringExecution {
 			if a.placed {
-				governedPlaced[constraintID("anti", term.TopologyKey, term.LabelSelector)]++
+				governedPlaced[termID("anti", term, a.pod)]++
 			}
 			da := a.where.domains(term.TopologyKey)
 			for _, q := range pods {
-				if q == a || (!a.placed && !q.placed) || !c02Matches(term.LabelSelector, a.pod.Namespace, q.pod) {
+				if q == a || (!a.placed && !q.placed) || !s.c02TermMatches(term, a.pod, q.pod) {
 					continue
 				}
 				if q.placed && !a.placed {
-					governedPlaced[constraintID("anti", term.TopologyKey, term.LabelSelector)]++
+					governedPlaced[termID("anti", term, a.pod)]++
 				}
 				if d, ok := intersects(da, q.where.domains(term.TopologyKey)); ok {
 					undet := len(da) > 1 || len(q.where.domains(term.TopologyKey)) > 1
@@ -629,9 +732,9 @@ func execC02(s *c02Scenario, c *ev.Ctx) {
 		}
 		for _, term := range p.pod.Spec.Affinity.PodAffinity.RequiredDuringSchedulingIgnoredDuringExecution {
 			key := term.TopologyKey
-			governedPlaced[constraintID("affinity", key, term.LabelSelector)]++
+			governedPlaced[termID("affinity", term, p.pod)]++
 			dp := p.where.domains(key)
-			self := c02Matches(term.LabelSelector, p.pod.Namespace, p.pod)
+			self := s.c02TermMatches(term, p.pod, p.pod)
 			if len(dp) == 0 {
 				sig := "affinity:" + shortKey(key) + ":node-without-topology-key"
 				if constraintsOn(p, key) >= 2 || lostOnSameNode(p, key) {
@@ -648,7 +751,7 @@ func execC02(s *c02Scenario, c *ev.Ctx) {
 			for _, d := range ds {
 				found := false
 				for _, q := range pods {
-					if q == p || !c02Matches(term.LabelSelector, p.pod.Namespace, q.pod) {
+					if q == p || !s.c02TermMatches(term, p.pod, q.pod) {
 						continue
 					}
 					dq := q.where.domains(key)
@@ -673,7 +776,7 @@ func execC02(s *c02Scenario, c *ev.Ctx) {
 				// pods each started their own domain although each admits the other's
 				runningElsewhere := false
 				for _, q := range pods {
-					if q == p || q.placed || !c02Matches(term.LabelSelector, p.pod.Namespace, q.pod) {
+					if q == p || q.placed || !s.c02TermMatches(term, p.pod, q.pod) {
 						continue
 					}
 					dq := q.where.domains(key)
@@ -698,7 +801,7 @@ func execC02(s *c02Scenario, c *ev.Ctx) {
 					break
 				}
 				if !runningElsewhere && len(dp) == 1 {
-					id := constraintID("affinity", key, term.LabelSelector)
+					id := termID("affinity", term, p.pod)
 					starters[id] = append(starters[id], p)
 				}
 			}
@@ -960,10 +1063,10 @@ func execC02(s *c02Scenario, c *ev.Ctx) {
 
 var propC02 = ev.Prop[c02Scenario]{
 	ID: "C02", Test: "TestC02",
-	Rule: "rapid draws a scheduler world (0-5 nodes with / without zone and rack labels, bound pods some of which carry required anti-affinity, 1-2 pools some of which can label nodes with a rack) and a batch of 1-4 deployments x 1-4 replicas whose template carries 0-2 of {required / preferred pod anti-affinity, required / preferred pod affinity, DoNotSchedule / ScheduleAnyway spread with maxSkew 1-3, minDomains, node inclusion policies} over hostname / zone / rack with self-, deployment-, set- or foreign selectors, optionally pinned to a zone or a zone subset, preferring a zone, or with two OR-ed required zone terms; one REAL Provisioner.Schedule pass runs; " +
+	Rule: "rapid draws a scheduler world (0-5 nodes with / without zone and rack labels, bound pods some of which carry required anti-affinity, 1-2 pools some of which can label nodes with a rack) and a batch of 1-4 deployments x 1-4 replicas whose template carries 0-2 of {required / preferred pod anti-affinity, required / preferred pod affinity, DoNotSchedule / ScheduleAnyway spread with maxSkew 1-3, minDomains, node inclusion policies} over hostname / zone / rack with self-, deployment-, set- or foreign selectors, optionally pinned to a zone or a zone subset, preferring a zone, or with two OR-ed required zone terms; in a quarter of the worlds a second namespace holds some deployments and running pods and (anti-)affinity terms carry namespaces / namespaceSelector; one REAL Provisioner.Schedule pass runs; " +
 		"oracle on the END STATE, where every pod has the set of domains its node may end up with (node label; for a NodeClaim the zones an available compatible offering of its instance types can launch in, its own hostname, the values of its requirement for user keys): (1) for every required anti-affinity term of any pod (placed or running) and every other pod it selects, the two domain sets are disjoint; (2) every placed pod with a required affinity term has, for EVERY domain it may end up in, a selected pod on the same node or with exactly that domain, or it selects itself and no running pod / lower-numbered replica it selects sits in another domain its own node requirements admit; (3) for a DoNotSchedule self-selecting spread whose selector only matches replicas of the same deployment in the batch: pods certainly in the domain minus an upper bound of the minimum over certainly eligible domains <= maxSkew; " +
 		"non-trivial = at least two placed pods are governed by one shared constraint, or one was rejected by a topology constraint while another was placed",
-	Assumptions: []string{"the commit-order trace hook (H1) of the design is not used: the spread and bootstrap rules are applied in their order-free, lenient readings (they can miss a violation, never raise a false alarm)", "all pods live in one namespace", "minDomains is judged only where it certainly applies: under nodeAffinityPolicy Honor, when the pod's own affinity admits fewer values of the key than minDomains (the minimum then counts as 0)"},
+	Assumptions: []string{"the commit-order trace hook (H1) of the design is not used: the spread and bootstrap rules are applied in their order-free, lenient readings (they can miss a violation, never raise a false alarm)", "one or two namespaces; (anti-)affinity terms look at listed namespaces, a namespaceSelector, both, or the pod's own namespace; spread constraints count the pod's own namespace only", "minDomains is judged only where it certainly applies: under nodeAffinityPolicy Honor, when the pod's own affinity admits fewer values of the key than minDomains (the minimum then counts as 0)"},
 	Draw:        drawC02, Exec: execC02, ReplayTries: 40,
 }
 
